@@ -278,6 +278,9 @@ func (acc *ElementAccumulator) addLeaves(leaves []elementLeaf) [64][]types.Hash2
 	var treeGrowth [64][]types.Hash256
 	for i, el := range leaves {
 		el.LeafIndex = acc.NumLeaves
+		// a new leaf starts with an empty proof; an in-block (ephemeral) parent
+		// may arrive with arbitrary hashes attached, which nothing validates
+		el.MerkleProof = nil
 
 		// Walk "up" the Forest, merging trees of the same height, but before
 		// merging two trees, append each of their roots to the proofs under the
